@@ -666,18 +666,17 @@ class FuncLowerer:
             lc = self.loop_contract()
             self.loop_guard_raii()
             rb = self.take_rebase()
-            out = [pad + 'while (%s)' % self.cond(inner[0])] + lc
-            out += self.rebased(self.stmt_block(inner[1], ind), rb)
-            return out
+            head = pad + 'while (%s)' % self.cond(inner[0])
+            body = self.rebased(self.stmt_block(inner[1], ind), rb)
+            return [head] + self.with_auto_temps(lc, body + [head]) + body
         if k == 'DoStmt':
             inner = s.get('inner', [])
             self.loop_ord += 1
             lc = self.loop_contract()
             rb = self.take_rebase()
-            out = [pad + 'do'] + lc
-            out += self.rebased(self.stmt_block(inner[0], ind), rb)
-            out.append(pad + 'while (%s);' % self.cond(inner[1]))
-            return out
+            body = self.rebased(self.stmt_block(inner[0], ind), rb)
+            tail = pad + 'while (%s);' % self.cond(inner[1])
+            return [pad + 'do'] + self.with_auto_temps(lc, body + [tail]) + body + [tail]
         if k == 'ForStmt':
             inner = s.get('inner', [])
             # clang: init, condvar, cond, inc, body (missing ones are {} placeholders)
@@ -693,10 +692,12 @@ class FuncLowerer:
             lc = self.loop_contract()
             c = self.cond(cond) if cond and cond.get('kind') else '1'
             i = self.expr(inc) if inc and inc.get('kind') else ''
-            out.append('%s  for (; %s; %s)' % (pad, c, i))
+            head = '%s  for (; %s; %s)' % (pad, c, i)
+            out.append(head)
             rb = self.take_rebase()
-            out += lc
-            out += self.rebased(self.stmt_block(body, ind + 1), rb)
+            bodyb = self.rebased(self.stmt_block(body, ind + 1), rb)
+            out += self.with_auto_temps(lc, bodyb + [head])
+            out += bodyb
             out.append(pad + '}')
             return out
         if k == 'BreakStmt':
@@ -802,6 +803,26 @@ class FuncLowerer:
         rb = getattr(self, '_rebase', [])
         self._rebase = []
         return rb
+
+    def with_auto_temps(self, lc, block):
+        """compiler-style temporaries (__tN) assigned inside the loop body are added to the loop's assigns clause automatically,
+        so that a spec does not depend on how the lowering numbers its temporaries"""
+        if not lc:
+            return lc
+        temps = sorted(set(re.findall(r'\b__t\d+\b', '\n'.join(block))), key=lambda x: int(x[3:]))
+        if not temps:
+            return lc
+        out = []
+        done = False
+        for line in lc:
+            m = re.match(r'^(\s*__CPROVER_assigns\()(.*)\)\s*$', line)
+            if m and not done:
+                have = set(re.findall(r'\b__t\d+\b', m.group(2)))
+                extra = [t for t in temps if t not in have]
+                line = m.group(1) + ', '.join([m.group(2)] + extra) + ')'
+                done = True
+            out.append(line)
+        return out
 
     def rebased(self, block, rb):
         if not rb:
